@@ -121,6 +121,9 @@ def make_cases(ctx):
                            "// eslint-disable-next-line no-console\nconsole.log(a);\n"}
     for cmd in triggers.CMDS:
         cases.append({"kind": "lint", "files": lazy, "argv": [cmd], "targets": ["."], "id": "lazy:%s" % cmd})
+    # option side effects must not leak into the rendering: dry --clear-cache with and without an on-disk cache left by an earlier run
+    for tag, extra in (("with-cache-file", {".thailint-cache/dry.db": b"SQLite format 3\x00" + b"\x00" * 64}), ("no-cache-file", {})):
+        cases.append({"kind": "lint", "files": dict(triggers.files("cc"), **extra), "argv": ["dry", "--clear-cache"], "targets": ["."], "id": "dry-clear-cache:%s" % tag})
     # DRY with many locations (long message)
     many = {}
     body = "".join("    v%d = a + %d\n" % (k, k) for k in range(6))
